@@ -483,21 +483,73 @@ func (f *Frame) enterLoop(l *Loop, pre *State, prePhi map[*ssa.Phi]Val) *State {
 }
 
 func (f *Frame) loopTouchesGhost(l *Loop, k string) bool {
+	lock := strings.HasPrefix(k, "lock:")
 	for b := range l.blocks {
 		for _, in := range b.Instrs {
-			if c, ok := in.(ssa.CallInstruction); ok {
-				if callee := c.Common().StaticCallee(); callee != nil {
-					s := callee.String()
-					if strings.Contains(s, "sync.") || strings.Contains(s, "Seek") || strings.Contains(s, "Decode") || strings.Contains(s, "Scan") {
-						return true
-					}
-				} else {
+			c, ok := in.(ssa.CallInstruction)
+			if !ok {
+				continue
+			}
+			callee := c.Common().StaticCallee()
+			if callee == nil {
+				// dynamic / interface callees are lock-balanced by contract;
+				// they may move stream positions
+				if !lock {
 					return true
 				}
+				continue
+			}
+			if lock {
+				if callsLockOps(callee, map[*ssa.Function]bool{}) {
+					return true
+				}
+				continue
+			}
+			s := callee.String()
+			if strings.Contains(s, "Seek") || strings.Contains(s, "Decode") || strings.Contains(s, "Scan") || strings.Contains(s, "Read") {
+				return true
 			}
 		}
 	}
 	return false
+}
+
+var lockOpsCache = map[*ssa.Function]bool{}
+
+// callsLockOps: fn (transitively, through static callees with bodies) calls a
+// sync mutex operation.
+func callsLockOps(fn *ssa.Function, seen map[*ssa.Function]bool) bool {
+	if v, ok := lockOpsCache[fn]; ok {
+		return v
+	}
+	if seen[fn] {
+		return false
+	}
+	seen[fn] = true
+	s := fn.String()
+	if strings.HasPrefix(s, "(*sync.RWMutex).") || strings.HasPrefix(s, "(*sync.Mutex).") {
+		lockOpsCache[fn] = true
+		return true
+	}
+	res := false
+	if fn.Pkg != nil && strings.HasPrefix(fn.Pkg.Pkg.Path(), "github.com/protobom/protobom") {
+		for _, b := range fn.Blocks {
+			for _, in := range b.Instrs {
+				if c, ok := in.(ssa.CallInstruction); ok {
+					if callee := c.Common().StaticCallee(); callee != nil && callsLockOps(callee, seen) {
+						res = true
+					}
+				}
+			}
+		}
+		for _, af := range fn.AnonFuncs {
+			if callsLockOps(af, seen) {
+				res = true
+			}
+		}
+	}
+	lockOpsCache[fn] = res
+	return res
 }
 
 func (f *Frame) loopOrdinal(l *Loop) int { return l.ordinal }
@@ -1078,6 +1130,10 @@ func (f *Frame) localObjectCandidates(l *Loop, mk1 func(string, func(*State, map
 			mk1("localFresh:"+al.Name()+lf.Suffix, func(st *State, _ map[*ssa.Phi]Val) Term {
 				e := Select(vc.get(st, name), ref)
 				return vc.mineOrNil(st, e)
+			})
+			mk1("localFreshA0:"+al.Name()+lf.Suffix, func(st *State, _ map[*ssa.Phi]Val) Term {
+				e := Select(vc.get(st, name), ref)
+				return Or(Eq(e, Zero), Ge(e, vc.A0))
 			})
 		}
 	}
